@@ -77,6 +77,10 @@ type vhCfg struct {
 	LI64  []int64   `point:"lI64" vk:"slice"`
 	ELst  []string  `edgepoint:"eLst" vk:"slice"`
 
+	LPInt []*int     `point:"lPInt" vk:"pslice"`
+	LPF64 []*float64 `point:"lPF64" vk:"pslice"`
+	LPStr []*string  `point:"lPStr" vk:"pslice"`
+
 	AInt [2]int     `point:"aInt" vk:"array"`
 	AStr [2]string  `point:"aStr" vk:"array"`
 	AF32 [2]float32 `point:"aF32" vk:"array"`
@@ -233,6 +237,18 @@ func vhValue(kind string, t reflect.Type, abs json.RawMessage, conc int) reflect
 		s := reflect.MakeSlice(t, len(l), len(l))
 		for i, e := range l {
 			s.Index(i).Set(vhScalar(t.Elem(), jInt(e), concPlus(conc, i)))
+		}
+		return s
+	case "pslice":
+		// elements: -9 = nil, otherwise a pointer to the atom's value
+		l := jList(abs)
+		s := reflect.MakeSlice(t, len(l), len(l))
+		for i, e := range l {
+			if a := jInt(e); a != -9 {
+				p := reflect.New(t.Elem().Elem())
+				p.Elem().Set(vhScalar(t.Elem().Elem(), a, concPlus(conc, i)))
+				s.Index(i).Set(p)
+			}
 		}
 		return s
 	case "array":
